@@ -224,10 +224,57 @@ def genconfig_case(exe, lang):
         shutil.rmtree(top, ignore_errors=True)
 
 
+def scala_package_case(exe, where):
+    """the Scala package comes from --scala-package, else [scala] package in the file, else it is missing (an error) - never from another language's setting"""
+    top = tempfile.mkdtemp(prefix='clirun-', dir=WORK)
+    try:
+        src = os.path.join(top, 'proj'); tree(src, {'c/src/lib.rs': '#[typeshare]\npub struct Foo { pub a: u32 }\n'})
+        cf = os.path.join(top, 'given.toml')
+        args = ['--lang', 'scala']
+        if where == 'kotlin_file_only':
+            open(cf, 'w').write('[kotlin]\npackage = "kot.pkg"\n'); args += ['--config-file', cf]
+        elif where == 'java_package_option':
+            args += ['--java-package', 'kot.pkg']
+        elif where == 'scala_file':
+            open(cf, 'w').write('[kotlin]\npackage = "kot.pkg"\n\n[scala]\npackage = "sc.pkg"\n'); args += ['--config-file', cf]
+        elif where == 'scala_option':
+            open(cf, 'w').write('[scala]\npackage = "file.pkg"\n'); args += ['--config-file', cf, '--scala-package', 'cli.pkg']
+        out = os.path.join(top, 'o.scala')
+        rc, o = run(exe, args + ['--output-file', out, src], cwd=src)
+        text = open(out).read() if os.path.exists(out) else ''
+        if where in ('kotlin_file_only', 'java_package_option'):
+            if rc == 0 or 'kot' in text:
+                return 'Scala generation used the Kotlin package although no Scala package was given (rc=%s)' % rc
+        elif where == 'scala_file':
+            if rc != 0 or 'package sc' not in text:
+                return 'the [scala] package of the configuration file was not used (rc=%s)' % rc
+        elif where == 'scala_option':
+            if rc != 0 or 'package cli' not in text:
+                return '--scala-package did not override the file value (rc=%s)' % rc
+        return None
+    finally:
+        shutil.rmtree(top, ignore_errors=True)
+
+
+def genconfig_empty_case(exe):
+    """-g must not overwrite an existing file, an empty one included (an empty typeshare.toml is a valid all-defaults configuration)"""
+    top = tempfile.mkdtemp(prefix='clirun-', dir=WORK)
+    try:
+        src = os.path.join(top, 'proj'); tree(src, SRC_CFG)
+        cf = os.path.join(top, 'empty.toml'); open(cf, 'w').close()
+        run(exe, ['--lang', 'swift', '--swift-prefix', 'Other', '--generate-config', '--config-file', cf, src], cwd=src)
+        if os.path.getsize(cf) != 0:
+            return '-g overwrote an existing (empty) configuration file'
+        return None
+    finally:
+        shutil.rmtree(top, ignore_errors=True)
+
+
 def scenario_config(exe, mode_arg, payload):
     """C20 bound: {option absent, empty, given} x {-c file absent, present} x {ancestor typeshare.toml absent, present} x {a second
     typeshare.toml further up absent, present} x {swift, kotlin}
-    observed through the generated type name and an applied type mapping; plus -g round trip and -g never overwriting."""
+    observed through the generated type name and an applied type mapping; plus -g round trip, -g never overwriting (an empty existing
+    file included), and the Scala package taken from --scala-package / [scala] only."""
     cases = []
     for lang in ('swift', 'kotlin'):
         for cli in (None, '', 'Cli'):
@@ -236,7 +283,12 @@ def scenario_config(exe, mode_arg, payload):
                     for outer in (False, True):
                         cases.append({'lang': lang, 'cli': cli, 'file': file_, 'anc': anc, 'outer': outer, 'use_c': bool(file_)})
     if mode_arg == 'check':
-        m = genconfig_case(exe, payload['lang']) if payload.get('genconfig') else config_case(exe, payload)
+        if payload.get('scala_package'):
+            m = scala_package_case(exe, payload['scala_package'])
+        elif payload.get('genconfig_empty'):
+            m = genconfig_empty_case(exe)
+        else:
+            m = genconfig_case(exe, payload['lang']) if payload.get('genconfig') else config_case(exe, payload)
         if m:
             witness(payload, m)
         print('input passes'); return
@@ -248,7 +300,14 @@ def scenario_config(exe, mode_arg, payload):
         m = genconfig_case(exe, lang)
         if m:
             witness({'genconfig': True, 'lang': lang}, m)
-    print('no failing input among %d option/file/ancestor combinations + 2 generate-config round trips' % len(cases))
+    for where in ('kotlin_file_only', 'java_package_option', 'scala_file', 'scala_option'):
+        m = scala_package_case(exe, where)
+        if m:
+            witness({'scala_package': where}, m)
+    m = genconfig_empty_case(exe)
+    if m:
+        witness({'genconfig_empty': True}, m)
+    print('no failing input among %d option/file/ancestor combinations + 2 generate-config round trips + 4 Scala package sources + empty-file -g' % len(cases))
 
 
 # ------------------------------------------------------------------------------------------------ C06: fresh processes
